@@ -60,6 +60,8 @@ type WatchFault struct {
 	Dup        map[int]bool  // delivery indices that are sent twice
 	// Frames[i] are extra frames sent before the event with delivery index i.
 	Frames map[int][]watch.Event
+	// ErrValue: the error an Err fault returns (default ErrInjectedWatch).
+	ErrValue error
 	// LateStream: a cancellation during the connect latency makes the call return at
 	// once, but with the established stream instead of an error.
 	LateStream bool
@@ -447,6 +449,9 @@ func (s *Server) Watch(ctx context.Context, opts metav1.ListOptions) (watch.Inte
 		s.mu.Lock()
 		call.Failed = true
 		s.mu.Unlock()
+		if f.ErrValue != nil {
+			return nil, f.ErrValue
+		}
 		return nil, ErrInjectedWatch
 	}
 
